@@ -180,7 +180,7 @@ func scanInput(v interface{}, t string, li *lossInfo) {
 	switch x := v.(type) {
 	case map[string]interface{}:
 		for k, vv := range x {
-			if vv == nil && (knownProp(t, k) != "" || knownProp(t, strings.TrimSuffix(k, "Map")) != "" || k == "id" || k == "type") {
+			if allNull(vv) && (knownProp(t, k) != "" || knownProp(t, strings.TrimSuffix(k, "Map")) != "" || k == "id" || k == "type") {
 				li.nullKnown = true
 			}
 			child := ""
@@ -231,7 +231,9 @@ func lossCheck(in, out map[string]interface{}, t string, path string, top bool) 
 			}
 		}
 		known := p != "" || (t != "" && (k == "id" || (k == "type" && !O.Types[t].Typeless)))
-		if v == nil && known {
+		if known && allNull(v) {
+			// a JSON null given for a known property - alone or as the
+			// only content of a list - may go
 			continue
 		}
 		ov, ok := out[k]
@@ -273,6 +275,25 @@ func lossCheck(in, out map[string]interface{}, t string, path string, top bool) 
 		}
 	}
 	return ""
+}
+
+// allNull reports whether v is null or a (possibly nested) list of nulls.
+func allNull(v interface{}) bool {
+	switch x := v.(type) {
+	case nil:
+		return true
+	case []interface{}:
+		if len(x) == 0 {
+			return false
+		}
+		for _, e := range x {
+			if !allNull(e) {
+				return false
+			}
+		}
+		return true
+	}
+	return false
 }
 
 func lossValue(v, ov interface{}, parentProp string, path string) string {
